@@ -227,13 +227,12 @@ End OneLine.
 Section TrailingComment.
   Variable parse_stmt : string -> res (option pyval).
 
-  (* l' = code ++ "--" ++ text (as split sees it): the conditions are again about the line alone *)
+  (* l' = code ++ "--" ++ text, the -- being the first one outside a quoted literal: the conditions are again about the line alone *)
   Record one_line_with_trailing_comment (l l' code text : string) : Prop := {
     tc_sub : re_sub RegexAst.re_equal_without_space " = " l = Ok l';
     tc_not_comment : (startswith (strip l') MYSQL_COM || startswith (strip l') IN_COM) = false;
     tc_has_inline : contains l' IN_COM = true;
-    tc_outside_quotes : re_search_b RegexAst.re_in_comment l' = Ok false;
-    tc_split : exists rest, split l' IN_COM = code :: text :: rest;
+    tc_scan : exists i, comment_start None l' = Some i /\ code = take i l' /\ text = drop (i + 2) l';   (* the first -- outside quotes *)
     tc_no_close : contains l' CL_COM = false;
     tc_no_open : contains l' OP_COM = false;
     tc_code_no_close : contains code CL_COM = false;
@@ -249,11 +248,11 @@ Section TrailingComment.
     process_line parse_stmt lm0 l not_last =
     (do r <- parse_stmt (drop_last (code_of code)); Ok (lm0, (entities_of r, [text]))).
   Proof.
-    intros l l' code text not_last [Hsub Hnc Hin Hq [rest Hsp] Hcl Hop Hccl Hsk Hset Hend Hne Hb].
+    intros l l' code text not_last [Hsub Hnc Hin [i [Hq [Hcode Htext]]] Hcl Hop Hccl Hsk Hset Hend Hne Hb].
     unfold process_line.
     assert (Hpre : pre_process_line lm0 l = Ok (code, false, [], [text])).
     { unfold pre_process_line. rewrite Hsub. cbn [bind multi_line_comment lm0]. rewrite Hnc. cbn [negb bind].
-      rewrite Hin. unfold process_in_comment. rewrite Hq. cbn [bind]. rewrite Hsp. cbn [bind].
+      rewrite Hin. unfold process_in_comment. rewrite Hq. rewrite <- Hcode, <- Htext. cbn [bind].
       rewrite Hop. cbn [bind block_comments lm0]. rewrite Hccl. cbn [andb bind].
       rewrite (startswith_false_of_contains l' OP_COM Hop) by discriminate.
       rewrite (startswith_false_of_contains l' CL_COM Hcl) by discriminate. cbn [andb]. reflexivity. }
@@ -371,4 +370,65 @@ Proof.
   change lm0 with (collecting None).
   rewrite (statement_over_lines parse_stmt body1 None l1 l1' more1 B1 C1 E1 S1 N).
   rewrite J in N. rewrite (statement_over_lines parse_stmt body2 None l2 l2' more2 B2 C2 E2 S2 N). rewrite J. reflexivity.
+Qed.
+
+(* ---------- C08: the comment text does not matter (after fix 0398ce9) ------------------------------------------------------------------------
+   where the scanner finds the comment depends on the code before it only: if the code holds no "--" outside quoted literals, closes
+   every literal it opens and does not end with '-', then for EVERY text (quotes, apostrophes, further "--", anything) the line
+   code ++ "--" ++ text is cut exactly between code and text *)
+Fixpoint end_quote (quote : option ascii) (s : string) : option ascii :=
+  match s with
+  | EmptyString => quote
+  | String c r =>
+    match quote with
+    | Some qc => end_quote (if Ascii.eqb c qc then None else quote) r
+    | None => if Ascii.eqb c "'" || Ascii.eqb c """" then end_quote (Some c) r else end_quote None r
+    end
+  end.
+Fixpoint ends_with_dash (s : string) : bool :=
+  match s with
+  | EmptyString => false
+  | String c EmptyString => Ascii.eqb c "-"
+  | String _ r => ends_with_dash r
+  end.
+Lemma option_map_S_add n o : option_map S (option_map (Nat.add n) o) = option_map (Nat.add (S n)) o.
+Proof. destruct o; reflexivity. Qed.
+
+Lemma comment_start_app : forall code q rest, comment_start q code = None -> ends_with_dash code = false ->
+  comment_start q (code ++ rest) = option_map (Nat.add (String.length code)) (comment_start (end_quote q code) rest).
+Proof.
+  induction code as [|c r IH]; intros q rest Hn Hd.
+  - cbn [append String.length end_quote]. destruct (comment_start q rest); reflexivity.
+  - cbn [append String.length]. cbn [comment_start end_quote] in *.
+    assert (Hdr : ends_with_dash r = false) by (destruct r; [reflexivity|exact Hd]).
+    destruct q as [qc|].
+    + destruct (comment_start (if Ascii.eqb c qc then None else Some qc) r) eqn:E; [discriminate|].
+      rewrite (IH _ rest E Hdr). apply option_map_S_add.
+    + destruct (Ascii.eqb c "'" || Ascii.eqb c """") eqn:Eq.
+      * destruct (comment_start (Some c) r) eqn:E; [discriminate|]. rewrite (IH _ rest E Hdr). apply option_map_S_add.
+      * destruct (String.prefix IN_COM (String c r)) eqn:Ep; [discriminate|].
+        destruct (comment_start None r) eqn:E; [discriminate|].
+        assert (Ep2 : String.prefix IN_COM (String c (r ++ rest)) = false).
+        { destruct r as [|d r']; cbn [append].
+          - cbn [ends_with_dash] in Hd. unfold IN_COM. cbn [String.prefix]. destruct (ascii_dec "-" c) as [<-|]; [rewrite Ascii.eqb_refl in Hd; discriminate Hd|reflexivity].
+          - unfold IN_COM in *. cbn [String.prefix] in *. destruct (ascii_dec "-" c); [|reflexivity]. destruct (ascii_dec "-" d); [destruct r'; discriminate Ep|reflexivity]. }
+        rewrite Ep2. rewrite (IH _ rest E Hdr). apply option_map_S_add.
+Qed.
+
+Lemma append_assoc_helper (a b c : string) : (a ++ b ++ c = (a ++ b) ++ c)%string.
+Proof. induction a as [|x a IH]; cbn; [reflexivity|rewrite IH; reflexivity]. Qed.
+Lemma take_app_length a b : take (String.length a) (a ++ b) = a.
+Proof. induction a as [|c a IH]; cbn; [destruct b; reflexivity|rewrite IH; reflexivity]. Qed.
+Lemma drop_app_length a b : drop (String.length a) (a ++ b) = b.
+Proof. induction a as [|c a IH]; cbn; [reflexivity|exact IH]. Qed.
+
+Theorem comment_cut_for_any_text : forall code text,
+  comment_start None code = None -> end_quote None code = None -> ends_with_dash code = false ->
+  process_in_comment (code ++ IN_COM ++ text) = Ok (code, [text]).
+Proof.
+  intros code text Hn Hq Hd. unfold process_in_comment. rewrite (comment_start_app code None (IN_COM ++ text) Hn Hd). rewrite Hq.
+  assert (E : comment_start None (IN_COM ++ text) = Some O) by (destruct text; reflexivity). rewrite E. cbn [option_map]. rewrite Nat.add_0_r.
+  rewrite take_app_length. replace (String.length code + 2)%nat with (String.length (code ++ IN_COM)).
+  - rewrite (append_assoc_helper code IN_COM text). rewrite drop_app_length. reflexivity.
+  - clear. induction code as [|c r IH]; cbn; [reflexivity|rewrite IH; reflexivity].
 Qed.
